@@ -2027,6 +2027,10 @@ def run_site_case(synth, by, case):
         return ("skip", "the constructor attribute is not in the inventory any more")
     if row["cls"] in S.LIST_KIND:
         return S.run_list_case(synth, row, rows, case["way"])
+    if row["cls"] == "AttrDtype":
+        return S.run_dtype_case(synth, row, rows, case["way"])
+    if row["cls"] == "AttrTensor":
+        return S.run_tensor_case(synth, row, rows, case["way"])
     return S.run_scalar_case(synth, row, rows, case["way"])
 
 
@@ -2059,9 +2063,9 @@ def run_site_oracle(ck, sinfo):
             for way in ways:
                 cases.append({"kind": "attr_site", "level": "op", "mod": r["mod"], "ctor": r["ctor"], "param": r["param"],
                               "cls": r["cls"], "form": r["form"], "way": way})
-        elif r["cls"] in S.SCALAR_KIND:
-            allw = S.SCALAR_WAYS[S.SCALAR_KIND[r["cls"]]]
-            ways = allw if ck.thorough else ["py", rng.choice(allw[1:])]
+        elif r["cls"] in S.SCALAR_KIND or r["cls"] in ("AttrDtype", "AttrTensor"):
+            allw = S.DTYPE_WAYS if r["cls"] == "AttrDtype" else S.TENSOR_WAYS if r["cls"] == "AttrTensor" else S.SCALAR_WAYS[S.SCALAR_KIND[r["cls"]]]
+            ways = allw if ck.thorough or r["cls"] in ("AttrDtype", "AttrTensor") else ["py", rng.choice(allw[1:])]
             for way in ways:
                 cases.append({"kind": "attr_site", "level": "op", "mod": r["mod"], "ctor": r["ctor"], "param": r["param"],
                               "cls": r["cls"], "form": r["form"], "way": way})
